@@ -172,6 +172,33 @@ func (w *c12walker) check(t types.Type, node analysis.Type, path string) {
 		if n.B != b {
 			w.fail("classified", "basic kind", fmt.Sprintf("%s: basic %s reported as %s", path, b, n.B))
 		}
+		// the kind the node answers is the one go/types reports for the basic type
+		var want analysis.BasicKind
+		known := true
+		switch info := b.Info(); {
+		case info&types.IsBoolean != 0:
+			want = analysis.BKBool
+		case info&types.IsInteger != 0:
+			want = analysis.BKInt
+		case info&types.IsFloat != 0:
+			want = analysis.BKFloat
+		case info&types.IsString != 0:
+			want = analysis.BKString
+		default:
+			known = false // complex, unsafe.Pointer: no kind is defined (Kind refuses them)
+		}
+		if known {
+			func() {
+				defer func() {
+					if v := recover(); v != nil {
+						w.fail("classified", "basic kind refused", fmt.Sprintf("%s: Kind() of the node for %s panics: %v", path, b, v))
+					}
+				}()
+				if got := n.Kind(); got != want {
+					w.fail("classified", "basic kind value", fmt.Sprintf("%s: basic %s answers kind %d, go/types reports %d (bool, int, float, string = %d, %d, %d, %d)", path, b, got, want, analysis.BKBool, analysis.BKInt, analysis.BKFloat, analysis.BKString))
+				}
+			}()
+		}
 	case *analysis.Pointer:
 		w.check(ut.Underlying().(*types.Pointer).Elem(), n.Elem, path+".elem")
 	case *analysis.Array:
